@@ -539,6 +539,8 @@ def copyStructMem (env : Env) : M Unit := do
   | var :: _ => do
     emit (ins2 "mov" (rbp (env.off var)) rdi)
     emits (copyBytes "%rax" "%dl" "%rdi" 0 ty.size.toNat)
+    -- The address of the returned object is returned in RAX.
+    emit (ins2 "mov" rdi rax)
 
 def builtinAlloca (env : Env) : M Unit := do
   let ab ← needVar "current_fn->alloca_bottom" env.allocaBottom
@@ -720,13 +722,15 @@ def funcallArm (env : Env) (i : NInfo) (isAlloca : M Bool) (fn : M Unit) (retBuf
     let (_, fp) ← popArgs env args gp0 0
     emit (ins2 "mov" rax (.r "%r10"))
     emit (ins2 "mov" (.i fp) rax)
-    emit (ins1 "call" (.s "*%r10"))
+    -- (the note records the class of the returned value; it is not printed)
+    let ty ← needTy "node->ty" i.ty
+    if ty.kind == .ldouble then emit (.insA ⟨"call", [.s "*%r10"]⟩ "ret:f80")
+    else emit (ins1 "call" (.s "*%r10"))
     emit (ins2 "add" (.i (stackArgs * 8)) rsp)
     addDepth (-stackArgs)
     -- It looks like the most significant 48 or 56 bits in RAX may
     -- contain garbage if a function return type is short or bool/char,
     -- respectively. We clear the upper bits here.
-    let ty ← needTy "node->ty" i.ty
     match ty.kind with
     | .bool => emit (ins2 "movzx" (.r "%al") (.r "%eax"))
     | .char =>
@@ -747,15 +751,23 @@ def funcallArm (env : Env) (i : NInfo) (isAlloca : M Bool) (fn : M Unit) (retBuf
       | none => pure ()
 
 def casArm (env : Env) (addr : M Unit) (addrTy : Option Ty) (old : M Unit) (oldTy : Option Ty)
-    (new : M Unit) : M Unit := do
+    (new : M Unit) (newTy : Option Ty) : M Unit := do
   addr
   push
   new
+  -- Compare-and-swap works on the object representation. Move the
+  -- bits of a floating value to %rax.
+  let nty ← needTy "node->cas_new->ty" newTy
+  if nty.kind == .float then emit (ins2 "movd" (xmm 0) (.r "%eax"))
+  else if nty.kind == .double then emit (ins2 "movq" (xmm 0) rax)
+  else pure ()
   push
   old
   emit (ins2 "mov" rax (.r "%r8"))
   let oty ← needTy "node->cas_old->ty" oldTy
-  load (env.ty? oty.base)
+  let obase ← needTy "node->cas_old->ty->base" (env.ty? oty.base)
+  if isFlonum obase then emit (ins2 "mov" (.m0 "%rax") (.r (← regAx obase.size)))
+  else load (some obase)
   pop "%rdx" -- new
   pop "%rdi" -- addr
   let aty ← needTy "node->cas_addr->ty" addrTy
@@ -774,8 +786,15 @@ def exchArm (env : Env) (lhs : M Unit) (lty : Option Ty) (rhs : M Unit) : M Unit
   rhs
   pop "%rdi"
   let lt ← needTy "node->lhs->ty" lty
-  let bty ← needTy "node->lhs->ty->base" (env.ty? lt.base)
-  emit (ins2 "xchg" (.r (← regAx bty.size)) (.m0 "%rdi"))
+  let ty ← needTy "node->lhs->ty->base" (env.ty? lt.base)
+  emit (ins2 "xchg" (.r (← regAx ty.size)) (.m0 "%rdi"))
+  -- A value shorter than 4 bytes is kept sign- or zero-extended in
+  -- %eax; xchg has only replaced the low byte or word.
+  if ty.size == 1 then
+    emit (ins2 (if ty.isUnsigned then "movzbl" else "movsbl") (.r "%al") (.r "%eax"))
+  else if ty.size == 2 then
+    emit (ins2 (if ty.isUnsigned then "movzwl" else "movswl") (.r "%ax") (.r "%eax"))
+  else pure ()
 
 /-- the tail of `gen_expr`: binary operators -/
 def binopArm (i : NInfo) (op : BinOp) (lhs : M Unit) (lty? : Option Ty) (rhs : M Unit) : M Unit := do
@@ -1061,7 +1080,7 @@ def genExpr (env : Env) : Node → M Unit
     emit (ins2 "lea" (.s s!"{cstr ul}(%rip)") rax)
   | .cas i addr old new => do
     loc i
-    casArm env (genExpr env addr) addr.ty? (genExpr env old) old.ty? (genExpr env new)
+    casArm env (genExpr env addr) addr.ty? (genExpr env old) old.ty? (genExpr env new) new.ty?
   | .exch i lhs rhs => do loc i; exchArm env (genExpr env lhs) lhs.ty? (genExpr env rhs)
   | .binop i op lhs rhs => do
     loc i
@@ -1230,7 +1249,7 @@ def emitDataVar (fcommon : Bool) (var : Obj) : Except String (List Line) := do
   let head := if v.isStatic then Line.raw s!"  .local {name}" else Line.raw s!"  .globl {name}"
   let align := if ty.kind == .array && ty.size ≥ 16 then max 16 v.align else v.align
   -- Common symbol
-  if fcommon && v.isTentative then
+  if fcommon && v.isTentative && !v.isTls then
     return [head, .raw s!"  .comm {name}, {ty.size}, {align}"]
   -- .data or .tdata
   match var.initData with
@@ -1244,7 +1263,8 @@ def emitDataVar (fcommon : Bool) (var : Obj) : Except String (List Line) := do
   | none =>
     -- .bss or .tbss
     let sec := if v.isTls then Line.raw "  .section .tbss,\"awT\",@nobits" else Line.raw "  .bss"
-    pure [head, sec, .raw s!"  .align {align}", .label name, .raw s!"  .zero {ty.size}"]
+    pure [head, sec, .raw s!"  .type {name}, @object", .raw s!"  .size {name}, {ty.size}",
+          .raw s!"  .align {align}", .label name, .raw s!"  .zero {ty.size}"]
 
 def emitData (p : Program) : Except String (List Line) := do
   let ls ← p.prog.mapM (emitDataVar p.fcommon)
@@ -1297,16 +1317,32 @@ def saveParams (env : Env) : List Var → Int → Int → M Unit
         storeGp gp off ty.size
         saveParams env rest (gp + 1) fp
 
+/-- the classification loop of the variadic prologue: (gp, fp, overflow) -/
+def vaCount (env : Env) : List Var → Int → Int → Int → M (Int × Int × Int)
+  | [], gp, fp, overflow => pure (gp, fp, overflow)
+  | var :: rest, gp, fp, overflow => do
+    let ty ← needTy "var->ty" var.ty
+    if env.off var > 0 then do
+      let e ← liftE (alignTo (env.off var + ty.size) 8)
+      vaCount env rest gp fp (max overflow e)
+    else
+      match ty.kind with
+      | .struct | .union => do
+        let (_, ngp, nfp) ← structInRegs env ty gp fp
+        vaCount env rest (gp + ngp) (fp + nfp) overflow
+      | .float | .double => vaCount env rest gp (fp + 1) overflow
+      | _ => vaCount env rest (gp + 1) fp overflow
+
 def vaAreaSave (env : Env) (fn : Obj) (va : Var) : M Unit := do
-  let gp : Int := (fn.params.filter fun v => match v.ty with | some t => !isFlonum t | none => false).length
-  let fp : Int := (fn.params.filter fun v => match v.ty with | some t => isFlonum t | none => false).length
-  if fn.params.any (·.ty.isNone) then nullDeref "var->ty" else pure ()
+  -- Count the registers taken by the named parameters, and find
+  -- the end of the named parameters that were passed on the stack.
+  let (gp, fp, overflow) ← vaCount env fn.params 0 0 16
   let off := env.off va
   -- va_elem
   emit (ins2 "movl" (.i (gp * 8)) (rbp off))
-  emit (ins2 "movl" (.i (fp * 8 + 48)) (rbp (off + 4)))
+  emit (ins2 "movl" (.i (fp * 16 + 48)) (rbp (off + 4)))
   emit (ins2 "movq" (.r "%rbp") (rbp (off + 8)))
-  emit (ins2 "addq" (.i 16) (rbp (off + 8)))
+  emit (ins2 "addq" (.i overflow) (rbp (off + 8)))
   emit (ins2 "movq" (.r "%rbp") (rbp (off + 16)))
   emit (ins2 "addq" (.i (off + 24)) (rbp (off + 16)))
   -- __reg_save_area__
@@ -1317,13 +1353,13 @@ def vaAreaSave (env : Env) (fn : Obj) (va : Var) : M Unit := do
   emit (ins2 "movq" (.r "%r8") (rbp (off + 56)))
   emit (ins2 "movq" (.r "%r9") (rbp (off + 64)))
   emit (ins2 "movsd" (xmm 0) (rbp (off + 72)))
-  emit (ins2 "movsd" (xmm 1) (rbp (off + 80)))
-  emit (ins2 "movsd" (xmm 2) (rbp (off + 88)))
-  emit (ins2 "movsd" (xmm 3) (rbp (off + 96)))
-  emit (ins2 "movsd" (xmm 4) (rbp (off + 104)))
-  emit (ins2 "movsd" (xmm 5) (rbp (off + 112)))
-  emit (ins2 "movsd" (xmm 6) (rbp (off + 120)))
-  emit (ins2 "movsd" (xmm 7) (rbp (off + 128)))
+  emit (ins2 "movsd" (xmm 1) (rbp (off + 88)))
+  emit (ins2 "movsd" (xmm 2) (rbp (off + 104)))
+  emit (ins2 "movsd" (xmm 3) (rbp (off + 120)))
+  emit (ins2 "movsd" (xmm 4) (rbp (off + 136)))
+  emit (ins2 "movsd" (xmm 5) (rbp (off + 152)))
+  emit (ins2 "movsd" (xmm 6) (rbp (off + 168)))
+  emit (ins2 "movsd" (xmm 7) (rbp (off + 184)))
 
 /-- the `Env` of one function (after `assign_lvar_offsets`) and its `stack_size` -/
 def fnEnv (p : Program) (fn : Obj) : Except String (Env × Int) := do
@@ -1335,14 +1371,14 @@ def fnEnv (p : Program) (fn : Obj) : Except String (Env × Int) := do
   pure ({ env0 with fnName := fn.v.name, retTy, params := fn.params, allocaBottom := fn.allocaBottom,
                     offsets }, stackSize)
 
-/-- one iteration of the loop of `emit_text` -/
-def emitFn (p : Program) (fn : Obj) : M Unit := do
-  let v := fn.v
-  if !v.isFunction || !v.isDefinition then return ()
+/-- is code emitted for this member of the prog list? -/
+def emitsCode (fn : Obj) : Bool :=
   -- No code is emitted for "static inline" functions
   -- if no one is referencing them.
-  if !v.isLive then return ()
-  let (env, stackSize) ← liftE (fnEnv p fn)
+  fn.v.isFunction && fn.v.isDefinition && fn.v.isLive
+
+def fnPrologue (env : Env) (stackSize : Int) (fn : Obj) : M Unit := do
+  let v := fn.v
   let name := cstr v.name
   if v.isStatic then emit (.raw s!"  .local {name}") else emit (.raw s!"  .globl {name}")
   emit (.raw "  .text")
@@ -1360,16 +1396,29 @@ def emitFn (p : Program) (fn : Obj) : M Unit := do
   | none => pure ()
   -- Save passed-by-register arguments to the stack
   saveParams env fn.params 0 0
-  -- Emit code
+
+/-- `gen_stmt(fn->body); assert(depth == 0);` -/
+def fnBody (env : Env) (fn : Obj) : M Unit := do
   genStmt env fn.body
   if (← getDepth) != 0 then fail "assert(depth == 0)" else pure ()
+
+def fnEpilogue (fn : Obj) : M Unit := do
+  let name := cstr fn.v.name
   -- The C spec defines a special rule for the main function.
-  if v.name == some "main" then emit (ins2 "mov" (.i 0) rax) else pure ()
+  if fn.v.name == some "main" then emit (ins2 "mov" (.i 0) rax) else pure ()
   -- Epilogue
   emit (.label s!".L.return.{name}")
   emit (ins2 "mov" (.r "%rbp") rsp)
   emit (ins1 "pop" (.r "%rbp"))
   emit (ins0 "ret")
+
+/-- one iteration of the loop of `emit_text` -/
+def emitFn (p : Program) (fn : Obj) : M Unit := do
+  if !emitsCode fn then return ()
+  let (env, stackSize) ← liftE (fnEnv p fn)
+  fnPrologue env stackSize fn
+  fnBody env fn
+  fnEpilogue fn
 
 def emitText (p : Program) : List Obj → M Unit
   | [] => pure ()
@@ -1387,6 +1436,22 @@ def checkOffsets (p : Program) : List Obj → Except String Unit
       | .error e => .error e
       | .ok _ => checkOffsets p rest
     else checkOffsets p rest
+
+/-- the code of every function body (what `gen_stmt(fn->body)` prints), with the function's name;
+    the label counter runs through all functions as in `emit_text` -/
+def fnBodies (p : Program) : List Obj → St → Except String (List (String × List Line))
+  | [], _ => .ok []
+  | fn :: rest, s =>
+    if !emitsCode fn then fnBodies p rest s else
+    match fnEnv p fn with
+    | .error e => .error e
+    | .ok (env, _) =>
+      match fnBody env fn s with
+      | .error e => .error s!"{cstr fn.v.name}: {e}"
+      | .ok (_, s', ls) =>
+        match fnBodies p rest s' with
+        | .error e => .error e
+        | .ok r => .ok ((cstr fn.v.name, ls) :: r)
 
 def fileLines (p : Program) : List Line :=
   p.files.map fun (no, name) => .raw s!"  .file {no} \"{cstr name}\""
